@@ -201,8 +201,8 @@ theorem pruneStates_spec (db : DB) (a b : Int) :
           rcases this.2 with e | e | e <;> rw [e] <;> simp
 
 /-- under the invariant every present record that `PruneStates` keeps already has its set -/
-theorem keep_stored (s : Sys) (hi : Inv s) (b k : Int) (hk : k ∈ keepOf s.db.vals b)
-    (hp : s.db.vals.get k ≠ none) : Stored s.db.vals k := by
+theorem keep_stored (s : Sys) (hi : Inv s) (b k : Int) (hbt : b ≤ tip s.st)
+    (hk : k ∈ keepOf s.db.vals b) (hp : s.db.vals.get k ≠ none) : Stored s.db.vals k := by
   unfold keepOf at hk
   cases hvi : s.db.vals.get b with
   | none => simp [hvi] at hk
@@ -213,10 +213,16 @@ theorem keep_stored (s : Sys) (hi : Inv s) (b k : Int) (hk : k ∈ keepOf s.db.v
       cases hinfo : s.db.vals.get k with
       | none => exact absurd hinfo hp
       | some info =>
-        have hGb := hi.grec b vi hvi
-        have hGk := hi.grec k info hinfo
+        have hGb := hi.grec b vi hbt hvi
         have hb0 : 0 ≤ b := by have := hGb.pos; omega
         have hls := lsf_eq b vi.lhc hb0
+        have hkb0 : k ≤ b := by
+          have := hGb.lhc_le
+          simp only [List.mem_cons, List.mem_nil_iff, or_false] at hk
+          rcases hk with e | e
+          · omega
+          · rw [hls] at e; split at e <;> omega
+        have hGk := hi.grec k info (by omega) hinfo
         have hsome : info.set.isSome := by
           rw [hGk.set_iff]
           have hcases : k = vi.lhc ∨ (k = b - b % 100000 ∧ vi.lhc ≤ k) := by
@@ -229,7 +235,7 @@ theorem keep_stored (s : Sys) (hi : Inv s) (b k : Int) (hk : k ∈ keepOf s.db.v
           rcases hcases with e | ⟨e, hle⟩
           · left
             have hkb : k ≤ b := by rw [e]; exact hGb.lhc_le
-            have := (hGk.mono b vi hkb hvi).2 (by omega)
+            have := (hGk.mono b vi hkb hbt hvi).2 (by omega)
             omega
           · right; omega
         obtain ⟨c, st⟩ := info
@@ -238,34 +244,41 @@ theorem keep_stored (s : Sys) (hi : Inv s) (b k : Int) (hk : k ∈ keepOf s.db.v
         | some p => exact ⟨c, p, hinfo⟩
     · simp [hset] at hk
 
-theorem inv_prune (s : Sys) (hi : Inv s) (a b : Int) : Inv (s.step (.prune a b)) := by
+theorem inv_prune (s : Sys) (hi : Inv s) (a b : Int)
+    (hsafe : s.clean = true ∨ b ≤ tip s.st ∨ s.db.vals.get b = none) :
+    Inv (s.step (.prune a b)) := by
   show Inv ⟨(pruneStates s.db a b).1, s.st, s.truth,
       if (pruneStates s.db a b).2 = .errArgs ∨ (pruneStates s.db a b).2 = .errNoVals ∨
          (pruneStates s.db a b).2 = .errNoParams then s.base
-      else if s.base ≤ b then b else s.base⟩
+      else if s.base ≤ b then b else s.base, s.clean⟩
   rcases pruneStates_spec s.db a b with ⟨he, hdb⟩ | ⟨hne, ⟨vi, hvi⟩, hq⟩
   · simp only [he, if_true, hdb]
     exact hi
   · simp only [hne, if_false]
     generalize (pruneStates s.db a b).1 = db' at hq
-    have hGb := hi.grec b vi hvi
     have hbtip : b ≤ tip s.st := by
-      by_cases hlt : tip s.st < b
-      · have := hi.above b hlt; rw [this] at hvi; cases hvi
-      · omega
+      rcases hsafe with hcl | hle | hnone
+      · by_cases hlt : tip s.st < b
+        · have := hi.above hcl b hlt; rw [this] at hvi; cases hvi
+        · omega
+      · exact hle
+      · rw [hnone] at hvi; cases hvi
+    have hGb := hi.grec b vi hbtip hvi
     -- the new table is a sub-table of the old one
     have hsub : ∀ k info, db'.vals.get k = some info → s.db.vals.get k = some info := by
       intro k info hk
       rcases hq.any k with e | e | ⟨hm, hns, hp⟩
       · rw [← e]; exact hk
       · rw [e] at hk; cases hk
-      · exact absurd (keep_stored s hi b k hm hp) hns
+      · exact absurd (keep_stored s hi b k hbtip hm hp) hns
     have hbase : s.base ≤ (if s.base ≤ b then b else s.base) ∧ b ≤ (if s.base ≤ b then b else s.base) ∧
         ((if s.base ≤ b then b else s.base) = b ∨ (if s.base ≤ b then b else s.base) = s.base) := by
       split <;> omega
     generalize (if s.base ≤ b then b else s.base) = base' at hbase
     refine ⟨by have := hi.base_pos; show 1 ≤ base'; omega, ?_, hi.ih_pos, hi.lbh_nonneg, hi.next_full,
-      hi.rec_tip, ?_, ?_, ?_, ?_⟩
+      hi.rec_tip, ?_, ?_, ?_, ?_, hi.cur_full, hi.last_full,
+      fun hb => hi.cur_truth (by have hb' : base' ≤ tip s.st - 1 := hb; omega),
+      fun h0 hb => hi.last_truth h0 (by have hb' : base' ≤ tip s.st - 2 := hb; omega)⟩
     · show base' ≤ tip s.st
       have := hi.base_le
       omega
@@ -290,12 +303,12 @@ theorem inv_prune (s : Sys) (hi : Inv s) (a b : Int) : Inv (s.step (.prune a b))
             simp only at hs2; subst hs2
             exact ⟨c2, p2, hg2⟩
           rw [hq.kept _ ?_ hst]; exact hg2
-          have hG := hi.grec h info hget
+          have hG := hi.grec h info h2 hget
           have hh0 : 0 ≤ h := by have := hG.pos; omega
           have hb0 : 0 ≤ b := by have := hGb.pos; omega
           have hlsh := lsf_eq h info.lhc hh0
           have hlsbb := lsf_eq b vi.lhc hb0
-          have hm := hGb.mono h info hbh hget
+          have hm := hGb.mono h info hbh h2 hget
           have hlhc_lt : info.lhc < b := by
             rw [hlsh] at hlsb; split at hlsb <;> omega
           have hceq : vi.lhc = info.lhc := hm.2 (by omega)
@@ -316,14 +329,15 @@ theorem inv_prune (s : Sys) (hi : Inv s) (a b : Int) : Inv (s.step (.prune a b))
           rw [hvi]
           simp only [hviset, if_true, hlseq]
           simp
-    · intro k info hk
+    · intro k info hkt hk
       have hk0 := hsub k info hk
-      have hG := hi.grec k info hk0
-      exact ⟨hG.pos, hG.lhc_le, hG.set_iff, fun k2 i2 hk2 hg2 => hG.mono k2 i2 hk2 (hsub _ _ hg2)⟩
-    · intro k hk
+      have hG := hi.grec k info hkt hk0
+      exact ⟨hG.pos, hG.lhc_le, hG.set_iff,
+        fun k2 i2 hk2 hk2t hg2 => hG.mono k2 i2 hk2 hk2t (hsub _ _ hg2)⟩
+    · intro hcl k hk
       have hk' : tip s.st < k := hk
       show db'.vals.get k = none
       rw [hq.hi k (by omega)]
-      exact hi.above k hk
+      exact hi.above hcl k hk
 
 end Tmv.ValStore
